@@ -79,12 +79,29 @@ fn meta() -> Metadata<'static> {
     Metadata::new("vh", Level::INFO, None)
 }
 
-const UNITS: [(Option<metrics_024::Unit>, &str); 5] = [
+/// every unit the metrics 0.24 facade knows, with the name the bridge must write (CloudWatch's
+/// unit names where one exists, the facade's own name otherwise) - written out by hand, not
+/// derived from the bridge's table
+const UNITS: [(Option<metrics_024::Unit>, &str); 19] = [
     (None, "None"),
     (Some(metrics_024::Unit::Count), "Count"),
     (Some(metrics_024::Unit::Milliseconds), "Milliseconds"),
     (Some(metrics_024::Unit::Bytes), "Bytes"),
     (Some(metrics_024::Unit::Nanoseconds), "Nanoseconds"),
+    (Some(metrics_024::Unit::Percent), "Percent"),
+    (Some(metrics_024::Unit::Seconds), "Seconds"),
+    (Some(metrics_024::Unit::Microseconds), "Microseconds"),
+    (Some(metrics_024::Unit::Tebibytes), "Tebibytes"),
+    (Some(metrics_024::Unit::Gibibytes), "Gibibytes"),
+    (Some(metrics_024::Unit::Mebibytes), "Mebibytes"),
+    (Some(metrics_024::Unit::Kibibytes), "Kibibytes"),
+    (Some(metrics_024::Unit::TerabitsPerSecond), "Terabits/Second"),
+    (Some(metrics_024::Unit::GigabitsPerSecond), "Gigabits/Second"),
+    (Some(metrics_024::Unit::MegabitsPerSecond), "Megabits/Second"),
+    (Some(metrics_024::Unit::KilobitsPerSecond), "Kilobits/Second"),
+    (Some(metrics_024::Unit::BitsPerSecond), "Bits/Second"),
+    (Some(metrics_024::Unit::CountPerSecond), "Count/Second"),
+    (Some(metrics_024::Unit::Count), "Count"),
 ];
 
 /// what one readout reported, decoded from its call log
@@ -408,6 +425,146 @@ fn arb_upd() -> impl Strategy<Value = Upd> {
     ]
 }
 
+// ---------------------------------------------------------------------------------------------
+// the reporter task: periodic readouts plus the final one at shutdown
+
+#[derive(Clone, Copy, Debug, PartialEq, Serialize, Deserialize)]
+pub enum RStep {
+    Inc(K, u32),
+    Hist(K, u32),
+    /// let the runtime (and with it the reporter task) run for k x 400 us
+    Sleep(u8),
+}
+
+#[derive(Clone, Debug, Serialize, Deserialize)]
+pub struct ReporterCase {
+    pub interval_sel: u8,
+    pub emit_zero: bool,
+    pub describes: Vec<(u8, u8)>,
+    pub steps: Vec<RStep>,
+}
+
+struct CaptureSink(std::sync::Arc<Mutex<Vec<RecLog>>>);
+impl metrique_writer_core::AnyEntrySink for CaptureSink {
+    fn append_any(&self, entry: impl metrique_writer_core::Entry + Send + 'static) {
+        self.0.lock().unwrap().push(record(&entry));
+    }
+    fn flush_async(&self) -> metrique_writer_core::sink::FlushWait {
+        metrique_writer_core::sink::FlushWait::ready()
+    }
+}
+
+pub fn check_reporter(case: &ReporterCase) -> CaseResult {
+    let kinds: BTreeMap<String, u8> = [(NAMES[0].to_string(), 0u8), (NAMES[1].to_string(), 1), (NAMES[2].to_string(), 2)]
+        .into_iter()
+        .collect();
+    let interval = match case.interval_sel % 4 {
+        0 => Duration::from_millis(1),
+        1 => Duration::from_millis(3),
+        2 => Duration::from_millis(20),
+        _ => Duration::from_secs(3600),
+    };
+    let logs = std::sync::Arc::new(Mutex::new(Vec::<RecLog>::new()));
+    let rt = tokio::runtime::Builder::new_current_thread().enable_time().build().unwrap();
+    let mut total_inc: BTreeMap<K, u64> = BTreeMap::new();
+    let mut samples: BTreeMap<K, u64> = BTreeMap::new();
+    let mut units_now: BTreeMap<String, String> = BTreeMap::new();
+    let mut after_sleep_updates = false;
+    let mut slept = false;
+    let r = no_panic("reporter", || {
+        rt.block_on(async {
+            let (reporter, rec) = metrique_metricsrs::MetricReporter::builder()
+                .metrics_sink((CaptureSink(logs.clone()), ()))
+                .metrics_publish_interval(interval)
+                .emit_zero_counters(case.emit_zero)
+                .metrics_rs_version::<dyn metrics_024::Recorder>()
+                .build_without_installing();
+            for (n, u) in &case.describes {
+                let name = NAMES[*n as usize % 3];
+                let (unit, uname) = UNITS[*u as usize % UNITS.len()];
+                match n % 3 {
+                    0 => rec.describe_counter(name.into(), unit, "d".into()),
+                    1 => rec.describe_histogram(name.into(), unit, "d".into()),
+                    _ => rec.describe_gauge(name.into(), unit, "d".into()),
+                }
+                units_now.insert(name.to_string(), uname.to_string());
+            }
+            for st in &case.steps {
+                match st {
+                    RStep::Inc(k, n) => {
+                        let k = K { name: 0, labels: k.labels }.norm();
+                        rec.register_counter(&k.key(), &meta()).increment(*n as u64);
+                        *total_inc.entry(k).or_insert(0) += *n as u64;
+                        after_sleep_updates |= slept;
+                    }
+                    RStep::Hist(k, v) => {
+                        let k = K { name: 1, labels: k.labels }.norm();
+                        rec.register_histogram(&k.key(), &meta()).record(*v as f64);
+                        *samples.entry(k).or_insert(0) += 1;
+                        after_sleep_updates |= slept;
+                    }
+                    RStep::Sleep(k) => {
+                        tokio::time::sleep(Duration::from_micros((*k as u64 % 8) * 400)).await;
+                        slept = true;
+                    }
+                }
+            }
+            reporter.shutdown().await;
+        })
+    });
+    r?;
+    let logs = logs.lock().unwrap().clone();
+    let mut reported_inc: BTreeMap<(String, Vec<(String, String)>), u64> = BTreeMap::new();
+    let mut reported_samples: BTreeMap<(String, Vec<(String, String)>), u64> = BTreeMap::new();
+    let mut last_units: BTreeMap<String, String> = BTreeMap::new();
+    for log in &logs {
+        let r = decode(log, &kinds)?;
+        vensure!(r.config_first, "bridge:no-split-config", "readout did not write AllowSplitEntries before its values");
+        for (k, v) in r.counters {
+            *reported_inc.entry(k).or_insert(0) += v;
+        }
+        for (k, v) in r.histograms {
+            *reported_samples.entry(k).or_insert(0) += v.iter().map(|x| x.1).sum::<u64>();
+        }
+        for (n, u) in r.units {
+            last_units.insert(n, u);
+        }
+    }
+    for (k, total) in &total_inc {
+        let got = reported_inc.get(&(k.name().to_string(), k.dims())).copied().unwrap_or(0);
+        vensure!(
+            got == *total,
+            if got < *total { "bridge:counter-increments-lost" } else { "bridge:counter-increments-double-counted" },
+            "reporter (interval {interval:?}, {} readouts appended before shutdown() returned): counter {k:?} deltas sum to {got}, increments to {total}",
+            logs.len()
+        );
+    }
+    for (k, n) in &samples {
+        let got = reported_samples.get(&(k.name().to_string(), k.dims())).copied().unwrap_or(0);
+        vensure!(
+            got == *n,
+            if got < *n { "bridge:histogram-samples-lost" } else { "bridge:histogram-samples-double-counted" },
+            "reporter (interval {interval:?}, {} readouts): histogram {k:?}: {n} samples recorded, {got} reported",
+            logs.len()
+        );
+    }
+    for (name, unit) in &last_units {
+        let want = units_now.get(name).cloned().unwrap_or_else(|| "None".to_string());
+        vensure!(*unit == want, "bridge:wrong-unit", "{name} reported with unit {unit}, described as {want}");
+    }
+    let mut classes: Classes = vec![];
+    if logs.len() >= 2 {
+        classes.push("periodic-readout-before-shutdown");
+    }
+    if after_sleep_updates {
+        classes.push("updates-after-the-runtime-last-ran-the-reporter");
+    }
+    if logs.len() >= 2 && after_sleep_updates {
+        classes.push("nt");
+    }
+    Ok(classes)
+}
+
 /// many increments / samples racing with a reader that reads out in a tight loop
 #[derive(Clone, Debug, Serialize, Deserialize)]
 pub struct StressCase {
@@ -505,7 +662,7 @@ pub fn run(ctx: &mut Ctx) {
             (
                 prop::collection::vec(
                     (
-                        prop::collection::vec((0u8..3, 0u8..5, 0u8..3), 0..3),
+                        prop::collection::vec((0u8..3, 0u8..19, 0u8..3), 0..3),
                         prop::collection::vec(prop::collection::vec(arb_upd(), 0..60), 1..8),
                         prop::collection::vec((arb_k(), prop_oneof![any::<f64>(), (0u32..100).prop_map(|x| x as f64)]), 0..6),
                         prop::collection::vec(any::<u8>(), 0..5),
@@ -527,6 +684,38 @@ pub fn run(ctx: &mut Ctx) {
                 .prop_map(|(phases, emit_zero)| Case { phases, emit_zero })
         },
         check,
+    );
+    ctx.explore(
+        SubCfg::new(
+            "c20-reporter",
+            "MetricReporter (build_without_installing, metrics 0.24) on a current-thread tokio runtime with a capturing AnyEntrySink as destination: describe calls over all 18 facade units, then 0-40 steps of counter increments / histogram samples / sleeps of 0-2.8 ms (only then can the reporter task run) with a publish interval of 1 ms / 3 ms / 20 ms / 1 h, then shutdown().await. Oracle over the readout entries the sink received by the time shutdown() returned: counter deltas sum to the increments, histogram counts to the samples (the final readout at shutdown carries whatever came after the last tick), AllowSplitEntries first, units as described. Non-trivial = at least one periodic readout happened and updates followed the last sleep",
+            if q { 1_500 } else { 40_000 },
+        )
+        .threads(ctx.tier.pick(4, 8))
+        .shrink_iters(60)
+        .mandatory(&["periodic-readout-before-shutdown", "updates-after-the-runtime-last-ran-the-reporter"]),
+        || {
+            (
+                any::<u8>(),
+                prop::bool::weighted(0.3),
+                prop::collection::vec((0u8..3, 0u8..19), 0..4),
+                prop::collection::vec(
+                    prop_oneof![
+                        4 => (arb_k(), prop_oneof![Just(0u32), 1u32..1000, any::<u32>()]).prop_map(|(k, n)| RStep::Inc(k, n)),
+                        3 => (arb_k(), any::<u32>()).prop_map(|(k, v)| RStep::Hist(k, v)),
+                        2 => any::<u8>().prop_map(RStep::Sleep),
+                    ],
+                    0..40,
+                ),
+            )
+                .prop_map(|(interval_sel, emit_zero, describes, steps)| ReporterCase {
+                    interval_sel,
+                    emit_zero,
+                    describes,
+                    steps,
+                })
+        },
+        check_reporter,
     );
     ctx.explore(
         SubCfg::new(
